@@ -270,6 +270,10 @@ func trExpr(fset *token.FileSet, e ast.Expr, vars map[string][2]string, used map
 		return v[0], v[1] == "Bool", nil
 	}
 	switch x := e.(type) {
+	case *ast.Ident:
+		if x.Name == "true" || x.Name == "false" {
+			return x.Name, true, nil
+		}
 	case *ast.ParenExpr:
 		s, b, err := trExpr(fset, x.X, vars, used)
 		return "(" + s + ")", b, err
@@ -356,6 +360,22 @@ func translateExprs(repo string) (string, map[string]string) {
 			errs[sp.Lean] = "function not found: " + sp.Func
 			continue
 		}
+		if sp.Kind == "tree" {
+			text, err := translateTree(fi, fd, sp)
+			if err != nil {
+				errs[sp.Lean] = err.Error()
+				params := ""
+				for _, v := range sp.Vars {
+					if v[2] != "const" {
+						params += fmt.Sprintf(" (%s : %s)", v[1], v[2])
+					}
+				}
+				b.WriteString(fmt.Sprintf("/-- %s : %s — %s -/\ndef %s%s : Option Nat := none\n\n", sp.File, sp.Func, strings.ReplaceAll(err.Error(), "-/", "- /"), sp.Lean, params))
+				continue
+			}
+			b.WriteString(text)
+			continue
+		}
 		var cands []ast.Expr
 		ast.Inspect(fd.Body, func(n ast.Node) bool {
 			switch x := n.(type) {
@@ -392,7 +412,9 @@ func translateExprs(repo string) (string, map[string]string) {
 		}
 		params := ""
 		for _, v := range sp.Vars {
-			params += fmt.Sprintf(" (%s : %s)", v[1], v[2])
+			if v[2] != "const" {
+				params += fmt.Sprintf(" (%s : %s)", v[1], v[2])
+			}
 		}
 		if pick == nil {
 			errs[sp.Lean] = "no expression of kind " + sp.Kind + " contains `" + sp.Match + "`"
@@ -415,6 +437,246 @@ func translateExprs(repo string) (string, map[string]string) {
 	}
 	b.WriteString("end Src\n")
 	return b.String(), errs
+}
+
+// ---------------------------------------------------------------- decision trees translated to Lean
+//
+// kind "tree": the CONTROL STRUCTURE of a function body (or, with Match, of the body of the first for/range statement
+// whose header contains Match) is translated into a nested Lean `if … then … else …` whose leaves are natural numbers:
+// leaf i (i >= 1) is the i-th terminating statement (return / continue / break) of that block in SOURCE order, leaf 0 is
+// "fell off the end". Conditions are translated like expressions (Vars; a var of type "const" is a literal, not a
+// parameter). Statements without control flow (calls, assignments, declarations, defers, nested loops) are effects and
+// are skipped: the tree says WHICH exit is taken under which conditions, in which order the conditions are tested, and
+// nothing else. A Props file proves that the model's decision function takes the corresponding exits.
+func translateTree(fi *fileInfo, fd *ast.FuncDecl, sp exprSpec) (string, error) {
+	norm := func(x string) string { return strings.Join(strings.Fields(x), "") }
+	var block *ast.BlockStmt = fd.Body
+	if sp.Match != "" {
+		block = nil
+		ast.Inspect(fd.Body, func(n ast.Node) bool {
+			if block != nil {
+				return false
+			}
+			switch x := n.(type) {
+			case *ast.ForStmt:
+				hdr := printNode(fi.fset, &ast.ForStmt{Init: x.Init, Cond: x.Cond, Post: x.Post, Body: &ast.BlockStmt{}})
+				if strings.Contains(norm(hdr), norm(sp.Match)) {
+					block = x.Body
+				}
+			case *ast.RangeStmt:
+				hdr := printNode(fi.fset, &ast.RangeStmt{Key: x.Key, Value: x.Value, Tok: x.Tok, X: x.X, Body: &ast.BlockStmt{}})
+				if strings.Contains(norm(hdr), norm(sp.Match)) {
+					block = x.Body
+				}
+			}
+			return true
+		})
+		if block == nil {
+			return "", fmt.Errorf("no for/range statement whose header contains `%s`", sp.Match)
+		}
+	}
+	// number the terminating statements of the block in source order (nested function literals and nested loops excluded
+	// for continue/break, which would refer to the inner loop)
+	leaf := map[token.Pos]int{}
+	type retT struct {
+		n int
+		r *ast.ReturnStmt
+	}
+	var rets []retT
+	var leafDoc []string
+	var number func(n ast.Node, inLoop bool)
+	number = func(n ast.Node, inLoop bool) {
+		ast.Inspect(n, func(m ast.Node) bool {
+			switch x := m.(type) {
+			case *ast.FuncLit:
+				return false
+			case *ast.ForStmt:
+				if x.Body != block {
+					number(x.Body, true)
+					return false
+				}
+			case *ast.RangeStmt:
+				if x.Body != block {
+					number(x.Body, true)
+					return false
+				}
+			case *ast.ReturnStmt:
+				leaf[x.Pos()] = len(leaf) + 1
+				rets = append(rets, retT{len(leaf), x})
+				leafDoc = append(leafDoc, fmt.Sprintf("%d = line %d `%s`", len(leaf), fi.fset.Position(x.Pos()).Line, strings.ReplaceAll(printNode(fi.fset, x), "-/", "- /")))
+			case *ast.BranchStmt:
+				if !inLoop && (x.Tok == token.CONTINUE || x.Tok == token.BREAK) {
+					leaf[x.Pos()] = len(leaf) + 1
+					leafDoc = append(leafDoc, fmt.Sprintf("%d = line %d `%s`", len(leaf), fi.fset.Position(x.Pos()).Line, x.Tok.String()))
+				}
+			}
+			return true
+		})
+	}
+	number(block, false)
+	vars := map[string][2]string{}
+	for _, v := range sp.Vars {
+		vars[v[0]] = [2]string{v[1], v[2]}
+	}
+	used := map[string]bool{}
+	cond := func(e ast.Expr) (string, error) {
+		c, isBool, err := trExpr(fi.fset, e, vars, used)
+		if err != nil {
+			return "", err
+		}
+		if !isBool {
+			return "", fmt.Errorf("condition `%s` is not boolean", printNode(fi.fset, e))
+		}
+		return c, nil
+	}
+	nodes := 0
+	var seq func(stmts []ast.Stmt, k func() (string, error)) (string, error)
+	seq = func(stmts []ast.Stmt, k func() (string, error)) (string, error) {
+		nodes++
+		if nodes > 4000 {
+			return "", fmt.Errorf("decision tree too large")
+		}
+		if len(stmts) == 0 {
+			return k()
+		}
+		rest := func() (string, error) { return seq(stmts[1:], k) }
+		switch x := stmts[0].(type) {
+		case *ast.ReturnStmt:
+			return fmt.Sprint(leaf[x.Pos()]), nil
+		case *ast.BranchStmt:
+			if n, ok := leaf[x.Pos()]; ok {
+				return fmt.Sprint(n), nil
+			}
+			return "", fmt.Errorf("unsupported branch statement `%s`", printNode(fi.fset, x))
+		case *ast.BlockStmt:
+			return seq(x.List, rest)
+		case *ast.IfStmt:
+			c, err := cond(x.Cond)
+			if err != nil {
+				return "", err
+			}
+			th, err := seq(x.Body.List, rest)
+			if err != nil {
+				return "", err
+			}
+			var el string
+			switch e := x.Else.(type) {
+			case nil:
+				el, err = rest()
+			case *ast.BlockStmt:
+				el, err = seq(e.List, rest)
+			default:
+				el, err = seq([]ast.Stmt{e}, rest)
+			}
+			if err != nil {
+				return "", err
+			}
+			return fmt.Sprintf("(if %s then %s else %s)", c, th, el), nil
+		case *ast.SwitchStmt:
+			var arms []*ast.CaseClause
+			var def *ast.CaseClause
+			for _, cl := range x.Body.List {
+				cc := cl.(*ast.CaseClause)
+				if cc.List == nil {
+					def = cc
+				} else {
+					arms = append(arms, cc)
+				}
+				for _, st := range cc.Body {
+					if br, ok := st.(*ast.BranchStmt); ok && br.Tok == token.FALLTHROUGH {
+						return "", fmt.Errorf("fallthrough is not supported")
+					}
+				}
+			}
+			var build func(i int) (string, error)
+			build = func(i int) (string, error) {
+				if i == len(arms) {
+					if def != nil {
+						return seq(def.Body, rest)
+					}
+					return rest()
+				}
+				var cs []string
+				for _, ce := range arms[i].List {
+					var e ast.Expr = ce
+					if x.Tag != nil {
+						e = &ast.BinaryExpr{X: x.Tag, Op: token.EQL, Y: ce}
+					}
+					c, err := cond(e)
+					if err != nil {
+						return "", err
+					}
+					cs = append(cs, c)
+				}
+				th, err := seq(arms[i].Body, rest)
+				if err != nil {
+					return "", err
+				}
+				el, err := build(i + 1)
+				if err != nil {
+					return "", err
+				}
+				return fmt.Sprintf("(if %s then %s else %s)", strings.Join(cs, " || "), th, el), nil
+			}
+			return build(0)
+		case *ast.ExprStmt, *ast.AssignStmt, *ast.IncDecStmt, *ast.DeclStmt, *ast.DeferStmt, *ast.GoStmt, *ast.ForStmt, *ast.RangeStmt, *ast.EmptyStmt:
+			return rest() // an effect: no control flow out of the block
+		}
+		return "", fmt.Errorf("unsupported statement `%s`", strings.SplitN(printNode(fi.fset, stmts[0]), "\n", 2)[0])
+	}
+	body, err := seq(block.List, func() (string, error) { return "0", nil })
+	if err != nil {
+		return "", err
+	}
+	params := ""
+	for _, v := range sp.Vars {
+		if v[2] != "const" {
+			params += fmt.Sprintf(" (%s : %s)", v[1], v[2])
+		}
+	}
+	where := sp.Func
+	if sp.Match != "" {
+		where += " — body of the loop `" + sp.Match + "`"
+	}
+	out := fmt.Sprintf("/-- %s : %s — decision tree; exits in source order: 0 = end of the block; %s -/\ndef %s%s : Nat :=\n  %s\n\n",
+		sp.File, where, strings.Join(leafDoc, "; "), sp.Lean, params, body)
+	// the value returned at each exit, when every return statement has one result and all of them translate to one type
+	if len(rets) > 0 {
+		var arms []string
+		okAll, anyBool, anyNum := true, false, false
+		for _, rt := range rets {
+			if len(rt.r.Results) != 1 {
+				okAll = false
+				break
+			}
+			v, isBool, err := trExpr(fi.fset, rt.r.Results[0], vars, used)
+			if err != nil {
+				okAll = false
+				break
+			}
+			if isBool {
+				anyBool = true
+			} else {
+				anyNum = true
+			}
+			arms = append(arms, fmt.Sprintf("  | %d => %s", rt.n, v))
+		}
+		if okAll && anyBool != anyNum {
+			ty, dflt := "Bool", "true"
+			if anyNum {
+				ty, dflt = "Nat", "0"
+			}
+			params2 := ""
+			for _, v := range sp.Vars {
+				if v[2] != "const" {
+					params2 += fmt.Sprintf(" (%s : %s)", v[1], v[2])
+				}
+			}
+			out += fmt.Sprintf("/-- the value returned at each exit of `%s` (exits that are not `return` statements, and 0, get `%s`) -/\ndef %sVal%s (exit : Nat) : %s :=\n  match exit with\n%s\n  | _ => %s\n\n",
+				sp.Lean, dflt, sp.Lean, params2, ty, strings.Join(arms, "\n"), dflt)
+		}
+	}
+	return out, nil
 }
 
 var timeConsts = map[string]int64{
